@@ -1,6 +1,6 @@
 (* C08 property theorem. *)
 From Coq Require Import ZArith List Bool.
-From PV Require Import Model.ParamSet Spec.C08 Proofs.ParamFacts.
+From PV Require Import Model.ParamSet Model.ParamSetHop Spec.C08 Proofs.ParamFacts Proofs.C08hFacts.
 Import ListNotations.
 Open Scope Z_scope.
 
@@ -15,3 +15,16 @@ Example C08_nonvacuous :
   fst (run_set (fun _ => false) t 5 2 [Report (mkTriple 1 0 100); Tick; Tick]) =
     [[OSet 5; ORefresh]; []; [OSet 5; ORefresh]; [ORet false]].
 Proof. vm_compute. repeat split. discriminate. Qed.
+
+(* reports handled while the request of a transmission is being built (thread-pool hop of Request.create) *)
+Theorem C08_hop_refines : C08_hop_refines_statement.
+Proof. exact C08hFacts.C08_hop_refines. Qed.
+Print Assumptions C08_hop_refines.
+Theorem C08_hop : C08_hop_statement.
+Proof. exact C08hFacts.C08_hop. Qed.
+Print Assumptions C08_hop.
+Theorem C08_hop_late_refuted :
+  let t := mkTriple 50 0 100 in
+  fst (run_set_hop false (fun _ => true) t 60 2 [t] []) = [[OSet 50]; []] /\
+  P08 (fun _ => true) t 60 2 (Report t :: flatten []) (fst (run_set_hop false (fun _ => true) t 60 2 [t] [])) = false.
+Proof. exact C08hFacts.C08_hop_late_refuted. Qed.
